@@ -11,7 +11,13 @@ rsync -a --exclude .git --exclude replays ${VERIF_SRC:-/verif}/ $vc/
 cd $vc
 for c in "$@"; do
   PEVAL_REPO=$wt timeout 1500 ./check $c --tier quick > $vc/out_$c.log 2>/dev/null; rc=$?
-  echo "SEED ${prop}_$v check=$c exit=$rc :: $(grep -E "VIOLATION|KNOWN" $vc/out_$c.log | head -2 | tr '\n' ' ') :: $(grep -E "^C[0-9]+ \[" $vc/out_$c.log | sed 's/.*discharged; //' | cut -c1-160)"
+  tb=$(python3 -c "
+import json,sys
+try:
+    b=json.load(open('$vc/evidence/$c.json'))['coverage'].get('branches',{})
+    print(','.join(sorted(k for k in b if k.startswith('table:'))))
+except Exception: pass" 2>/dev/null)
+  echo "SEED ${prop}_$v check=$c exit=$rc tables=[$tb] :: $(grep -E "VIOLATION|KNOWN" $vc/out_$c.log | head -2 | tr '\n' ' ') :: $(grep -E "^C[0-9]+ \[" $vc/out_$c.log | sed 's/.*discharged; //' | cut -c1-160)"
   if [ $rc -eq 1 ]; then rp=$(grep -oE "replay=[^ ]+" $vc/out_$c.log | head -1 | cut -d= -f2); [ -n "$rp" ] && python3 -c "
 import json,sys
 d=json.load(open('$vc/$rp')); print('   replay:', d.get('kind'), '|', str(d.get('why') or d.get('broken',{}).get('lean'))[:300])"; fi
